@@ -1,4 +1,4 @@
-import CaresModel.Proto.Timeout
+import CaresLemmas.Float32
 /-!
 # C06 (arithmetic part) — every attempt waits between the base timeout and the configured maximum; no overflow, no UB
 
@@ -16,8 +16,9 @@ termination are the channel model's part of C06 (coordinator); this file is abou
   56 rounds already wraps;
 * `calc_samples_agree` — the model equals the compiled `ares_calc_query_timeout` on the generated sample grid
   (kernel evaluation, exact float model);
-* the jitter is modelled exactly (`jitterExact`, IEEE binary32) for the driver and the samples; the theorems use only
-  the interval fact `jit tp ≤ tp/2 + tp/2²⁴` (`JitOk`), which the driver checks on every observed attempt.
+* the jitter is modelled exactly (`jitterExact`, IEEE binary32); the general theorems use the interval fact `JitOk`
+  (`jit tp ≤ tp·(1/2 + 2⁻²⁴ + 2⁻⁴⁹)`), and `jitter_exact_ok` (from `CaresLemmas/Float32.lean`) shows the exact function
+  satisfies it for every 16-bit draw, so `timeout_bounds_tree` / `no_ub` hold for the function of the tree itself.
 -/
 namespace Cares.C06a
 open Cares.Proto.Timeout Cares.Generated.Proto
@@ -98,8 +99,11 @@ def JitOk (jit : Nat → Nat) : Prop := ∀ tp, jitterOk tp (jit tp)
 theorem jitOk_le (jit : Nat → Nat) (h : JitOk jit) (tp : Nat) : jit tp ≤ tp := by
   have := h tp
   unfold jitterOk at this
-  have h2 : tp / 2 ^ 24 ≤ tp / 2 := Nat.div_le_div_left (by decide) (by decide)
   omega
+
+/-- the exact binary32 jitter of the code lies in the interval, for every 16-bit random number -/
+theorem jitter_exact_ok (r : Nat) (hr : r ≤ USHRT_MAX) : JitOk (fun tp => jitterExact tp r) :=
+  fun tp => jitterExact_ok tp r hr
 
 theorem preJitter_le_max (g : Bool) (timeout maxtimeout rounds : Nat) (h : maxtimeout ≠ 0) :
     (preJitter g timeout maxtimeout rounds).1 ≤ maxtimeout := by
@@ -158,26 +162,38 @@ theorem first_pass_exact (g : Bool) (jit : Nat → Nat) (timeout maxtimeout tryC
     have h1 : ¬ (timeout > maxtimeout) := by omega
     simp [hm, h1]
 
-/-- from the second pass on the value is the doubled (capped) timeout minus at most half of it (plus the rounding of a
-    huge value), and never more than it -/
+/-- from the second pass on the value is the doubled (capped) timeout minus at most (a hair more than) half of it, and
+    never more than it -/
 theorem jitter_window (g : Bool) (jit : Nat → Nat) (hj : JitOk jit) (timeout maxtimeout tryCount nservers : Nat)
     (hn : 0 < nservers) :
     let p := (preJitter g timeout maxtimeout (tryCount / nservers)).1
     let o := calcWith g jit timeout maxtimeout tryCount nservers
-    o.timeplus ≤ max p timeout ∧ p - (p / 2 + p / 2 ^ 24) ≤ o.timeplus := by
-  intro p o
+    o.timeplus ≤ max p timeout ∧ (p - o.timeplus) * 2 ^ 49 ≤ p * (2 ^ 24 + 1) ^ 2 := by
   have hne : nservers ≠ 0 := by omega
-  simp only [o, calcWith, hne, ↓reduceIte]
+  simp only [calcWith, hne, ↓reduceIte]
+  generalize (preJitter g timeout maxtimeout (tryCount / nservers)).1 = p
   generalize hd : (if tryCount / nservers > 0 then jit p else 0) = d
-  have hdle : d ≤ p / 2 + p / 2 ^ 24 := by
+  have e1 : (2 : Nat) ^ 49 = 562949953421312 := by decide
+  have e2 : ((2 : Nat) ^ 24 + 1) ^ 2 = 281475010265089 := by decide
+  have hdle : d * 562949953421312 ≤ p * 281475010265089 := by
     rw [← hd]; split
-    · exact hj p
+    · have := hj p; unfold jitterOk at this; rw [e1, e2] at this; exact this
     · omega
-  have h2 : p / 2 ^ 24 ≤ p / 2 := Nat.div_le_div_left (by decide) (by decide)
+  rw [e1, e2]
   have hnd : ¬ d > p := by omega
-  simp only [p] at hd hnd ⊢
   simp only [hnd, ↓reduceIte]
-  constructor <;> split <;> omega
+  by_cases hlt : p - d < timeout
+  · simp only [hlt, ↓reduceIte]
+    constructor
+    · omega
+    · have : p - timeout ≤ d := by omega
+      calc (p - timeout) * 562949953421312 ≤ d * 562949953421312 := Nat.mul_le_mul_right _ this
+        _ ≤ p * 281475010265089 := hdle
+  · simp only [hlt, ↓reduceIte]
+    constructor
+    · omega
+    · have : p - (p - d) = d := by omega
+      rw [this]; exact hdle
 
 /-! ## no undefined behaviour, no overflow -/
 
@@ -231,15 +247,34 @@ theorem no_ub_guarded (jit : Nat → Nat) (hj : JitOk jit) (timeout maxtimeout t
     simp only [hnd, ↓reduceIte, hp1.1, hp1.2.1, decide_false, Bool.or_false, true_and]
     split <;> omega
 
-/-- **no_ub** for the tree under check: `calcQueryTimeout` uses the guarded doubling (`calc_shift_guarded`) -/
-theorem no_ub (timeout maxtimeout tryCount nservers r : Nat) :
-    (calcQueryTimeout timeout maxtimeout tryCount nservers r).ub = false := by
+/-- **no_ub** for the tree under check: `calcQueryTimeout` uses the guarded doubling (`calc_shift_guarded`) and the exact
+    binary32 jitter: for every base timeout below 2⁶³, every maximum, try count, number of servers and 16-bit draw the
+    shift is defined, no bits are lost, the jitter subtraction does not wrap and the result fits `timeadd`'s signed type -/
+theorem no_ub (timeout maxtimeout tryCount nservers r : Nat) (ht : timeout ≤ MAX_TIMEPLUS) (hr : r ≤ USHRT_MAX) :
+    let o := calcQueryTimeout timeout maxtimeout tryCount nservers r
+    o.ub = false ∧ o.ovf = false ∧ o.timeplus ≤ MAX_TIMEPLUS := by
   unfold calcQueryTimeout
   rw [calc_shift_guarded]
-  by_cases hn : nservers = 0
-  · simp [calcWith, hn]
-  · simp only [calcWith, hn, ↓reduceIte, preJitter, beq_self_eq_true]
-    exact (shiftStep_guarded timeout (tryCount / nservers)).1
+  exact no_ub_guarded _ (jitter_exact_ok r hr) timeout maxtimeout tryCount nservers ht
+
+/-- **timeout bounds** for the function of the tree under check, from configuration to result: with the base timeout
+    `ares_metrics_server_timeout` yields (any latency history, any configured timeout and maximum, any instant), any try
+    count, any positive number of servers and any 16-bit draw: base ≤ result, and result ≤ maxtimeout when one is set -/
+theorem timeout_bounds_tree (m : Metrics) (cfgTimeout maxtimeout : Nat) (nowSec : Int) (tryCount nservers r : Nat)
+    (hn : 0 < nservers) (hr : r ≤ USHRT_MAX) :
+    let base := serverTimeout m cfgTimeout maxtimeout nowSec
+    let o := calcQueryTimeout base maxtimeout tryCount nservers r
+    base ≤ o.timeplus ∧ (maxtimeout ≠ 0 → o.timeplus ≤ maxtimeout) := by
+  intro base o
+  have hb := timeout_bounds_full (CALC_SHIFT_GUARDED == 1) (fun tp => jitterExact tp r) (jitter_exact_ok r hr) m
+    cfgTimeout maxtimeout nowSec tryCount nservers hn
+  simp only [] at hb
+  apply hb
+  -- the shift is never undefined on this tree
+  have hne : nservers ≠ 0 := by omega
+  rw [calc_shift_guarded]
+  simp only [calcWith, hne, ↓reduceIte, preJitter, beq_self_eq_true]
+  exact (shiftStep_guarded _ (tryCount / nservers)).1
 
 /-- F10 on the pinned tree (unguarded `timeplus <<= rounds`): tries = 65 with one server reaches 64 rounds — undefined
     behaviour —, and 56 rounds with the 250 ms minimum already shifts bits out of the word -/
@@ -249,10 +284,7 @@ theorem c06_f10_pinned_shift_ub :
 
 /-! ## non-vacuity -/
 
-example : JitOk (fun tp => jitterExact tp 0) := by
-  intro tp; simp [jitterExact, jitterOk]
-
-example : JitOk (fun tp => tp / 2) := by intro tp; show tp / 2 ≤ tp / 2 + tp / 2 ^ 24; omega
+example : JitOk (fun tp => tp / 2) := by intro tp; show tp / 2 * 2 ^ 49 ≤ tp * (2 ^ 24 + 1) ^ 2; omega
 
 example : (calcQueryTimeout 500 0 1 1 45344).timeplus = 655 ∧ (calcQueryTimeout 500 0 3 1 32124).timeplus = 3020 ∧
     (calcQueryTimeout 300 300 5 1 65535) = ⟨300, false, false, true⟩ := by decide +kernel
